@@ -110,7 +110,7 @@ func (ex *Exec) callBuiltin(st *State, f *Frame, b *ssa.Builtin, args []Value, i
 		}
 		return p
 	case "close":
-		panic(cutPath{"close(chan)"})
+		return nil // channels are not modelled; closing one has no effect the executor can observe
 	}
 	panic(fmt.Sprintf("builtin %s on %T", b.Name(), args[0]))
 }
